@@ -10,6 +10,7 @@ the first whose class is an ancestor-or-self (else the exception escapes).
 import itertools
 
 from ..pyside import run_python
+from .. import raiseseq
 from ..staticprop import first_message
 
 ID = "C08"
@@ -130,6 +131,8 @@ def cases(tier, seed):
     for cls in ("E1", "E2", "E3", "Exception"):
         n += 1
         yield mk(n, "c08.exception-declared", DECLS + ["def host() -> Int raise [%s] => 7" % cls], True, [], [], [cls], (), "decl")
+    # the raise machine: every function body over {raise X, call raising X, handle (arms, guarded call, arm body), if} within a bound
+    yield from raiseseq.cases(tier)
 
 
 def mk(n, family, src_lines, ok, raisable, actual, declared, arms, position):
@@ -151,7 +154,39 @@ def expected_lines(case):
     return "escaped"
 
 
+def evaluate_seq(case, drv):
+    """a sequence of the raise machine (mv/raiseseq.py): static verdict, then the trace the reference model predicts"""
+    res = {"fail": [], "nontrivial": True, "stats": {}, "key": case["src"], "evals": 1}
+    r = drv.transpile1(case["src"])
+    v = r["v"]
+    res["outcome"] = "seq:%s/%s" % (case["expect"], v)
+    res["stats"]["c08.seq.%s.%s" % (case["expect"], v)] = 1
+    fam = case["family"]
+    if v not in ("ok", "err"):
+        res["fail"].append({"family": fam, "kind": "crash-" + v, "detail": str(r)[:300], "tags": case["tags"]})
+    elif case["expect"] == "ok" and v == "err":
+        res["fail"].append({"family": fam, "kind": "over-rejection", "detail": "handled/declared raise rejected: " + first_message(r["errs"]), "tags": case["tags"]})
+    elif case["expect"] == "err" and v == "ok":
+        res["fail"].append({"family": fam, "kind": "accepted-unhandled", "detail": "raise neither handled nor declared, accepted", "tags": case["tags"], "observed": r["out"][0][-500:]})
+    elif v == "ok":
+        x = run_python(r["out"][0])
+        res["evals"] = 2
+        if x["compile_error"]:
+            res["fail"].append({"family": fam, "kind": "emitted-python-invalid", "detail": x["compile_error"], "tags": case["tags"]})
+        elif x["exc"]:
+            res["fail"].append({"family": fam, "kind": "exception-escapes-top-level-handle", "detail": "%s: %s" % (x["exc"], x["exc_msg"]), "tags": case["tags"]})
+        elif x["stdout"] != case["prints"]:
+            d = next((i for i, (a, b) in enumerate(zip(x["stdout"], case["prints"])) if a != b), min(len(x["stdout"]), len(case["prints"])))
+            res["fail"].append({"family": fam, "kind": "wrong-trace", "detail": "trace differs from the reference model at line %d: expected %r, observed %r" % (d, case["prints"][max(0, d - 2):d + 2], x["stdout"][max(0, d - 2):d + 2]),
+                                "tags": case["tags"], "observed": r["out"][0][-700:]})
+    if case["id"].endswith("177"):
+        res["sample"] = {"id": case["id"], "expect": case["expect"], "mamba": case["src"]}
+    return res
+
+
 def evaluate(case, drv):
+    if case["family"] == "c08.seq":
+        return evaluate_seq(case, drv)
     res = {"fail": [], "nontrivial": True, "stats": {}, "key": case["src"], "evals": 1}
     r = drv.transpile1(case["src"])
     v = r["v"]
